@@ -277,6 +277,29 @@ func c11RunRounds(t *testing.T, unit string, withGrace bool) {
 			return 0
 		}
 
+		// the most any reading of the accounting can credit a victim with (BECPUEvict and CPUAllocatableEvict share a target type)
+		hi := func(tk *c11E2ETask, p *c11Pod, r corev1.ResourceName) int64 {
+			switch tk.feature {
+			case string(features.BECPUEvict), string(features.CPUAllocatableEvict):
+				var m int64
+				if rn, v := p.cpuRequest(); rn == r {
+					m = v * 1000
+					if r == corev1.ResourceCPU {
+						m = v
+					}
+				}
+				if r == apiext.BatchCPU && p.sumReq(apiext.BatchCPU)*1000 > m {
+					m = p.sumReq(apiext.BatchCPU) * 1000
+				}
+				return m
+			case string(features.CPUEvict):
+				if r == corev1.ResourceCPU && p.HasMetric {
+					return p.Metric * c11Unit
+				}
+			}
+			return 0
+		}
+
 		const (
 			stPresent = iota
 			stTerminating
@@ -289,6 +312,7 @@ func c11RunRounds(t *testing.T, unit string, withGrace bool) {
 		sawTerminating, sawStale, sawGone, sawPendingCoversNoEvict, sawEvictBeyondPending, sawShape, sawFail, sawRetry := false, false, false, false, false, false, false, false
 		var deferred []func() bool
 		sawZeroGracePending, sawGracePending := false, false
+		sawFailedPodNotAccepted, sawUncoveredAtEnd, sawRetriedWhileUncovered := false, false, false
 		for round := 1; round <= nRounds; round++ {
 			if round > 1 {
 				// what became of the earlier victims
@@ -446,6 +470,40 @@ func c11RunRounds(t *testing.T, unit string, withGrace bool) {
 				}
 				return true
 			}
+			// the other direction of "stops as soon as the release of the victims covers the target": only pods whose
+			// eviction was ACCEPTED are victims. `accepted` = successes of this round so far + earlier successes still present.
+			var accepted []*c11Pod
+			isAccepted := map[int]bool{}
+			for _, q := range pending {
+				accepted = append(accepted, q)
+				isAccepted[q.Idx] = true
+			}
+			askedBy := map[string]map[int]bool{}
+			// r is certainly still short for tk even when every accepted victim is credited with the most any reading allows
+			shortFor := func(tk *c11E2ETask, r corev1.ResourceName) bool {
+				v := tk.target[r]
+				if v <= 0 {
+					return false
+				}
+				for _, x := range accepted {
+					v -= hi(tk, x, r)
+				}
+				return v > 0
+			}
+			// q certainly frees something tk is still short of
+			helps := func(tk *c11E2ETask, q *c11Pod) (corev1.ResourceName, bool) {
+				var rs []string
+				for r := range tk.target {
+					rs = append(rs, string(r))
+				}
+				sort.Strings(rs)
+				for _, r := range rs {
+					if shortFor(tk, corev1.ResourceName(r)) && lo(tk, q, corev1.ResourceName(r)) > 0 {
+						return corev1.ResourceName(r), true
+					}
+				}
+				return "", false
+			}
 			nEvict := 0
 			for _, cl := range ex.calls {
 				p := cl.Pod
@@ -547,13 +605,67 @@ func c11RunRounds(t *testing.T, unit string, withGrace bool) {
 							rr, feat, name, an, name, vn, describe())
 					})
 				}
+				// published order: no eligible, not yet evicted pod that certainly still helps is passed over
+				if orderDefined {
+					for _, q := range s.pods {
+						if q == p || state[q.Idx] == stGone || isAccepted[q.Idx] || askedBy[cl.Feature][q.Idx] || !c11Listable(s, cl.Feature, q) || !c11Precedes(cl.Feature, q, p) {
+							continue
+						}
+						if r, ok := helps(tk, q); ok {
+							c.Violation(t, "rounds:candidate-ahead-in-order-not-asked",
+								"round %d: %s evicted %s without asking for %s first, which is ahead of it in the published order, has not been evicted (no accepted eviction) and frees %d of %s that is still short%s",
+								round, cl.Feature, p.Name, q.Name, lo(tk, q, r), r, describe())
+							return
+						}
+					}
+				}
+				if askedBy[cl.Feature] == nil {
+					askedBy[cl.Feature] = map[int]bool{}
+				}
+				askedBy[cl.Feature][p.Idx] = true
 				if cl.OK {
+					if !isAccepted[p.Idx] {
+						isAccepted[p.Idx] = true
+						accepted = append(accepted, p)
+					}
 					if !isVictim[p.Idx] {
 						isVictim[p.Idx] = true
 						victims = append(victims, p)
 					}
 				} else {
 					sawFail = true
+				}
+			}
+			// end of the round: a task whose target the accepted victims do not cover must have asked for every eligible,
+			// not yet evicted pod that certainly still helps (eviction may stop only when the target is covered)
+			for _, tk := range tasks {
+				for _, q := range s.pods {
+					if state[q.Idx] == stGone || isAccepted[q.Idx] || askedBy[tk.feature][q.Idx] || !c11Listable(s, tk.feature, q) {
+						continue
+					}
+					if r, ok := helps(tk, q); ok {
+						if nCalls[q.Name] > 0 {
+							sawFailedPodNotAccepted = true
+						}
+						c.Violation(t, "rounds:stopped-short-without-asking-candidate",
+							"round %d: %s stopped although the pods whose eviction was accepted (%v) do not cover its target, and never asked for %s, which the policy allows, has not been evicted (%d failed eviction calls so far) and frees %d of %s that is still short%s",
+							round, tk.feature, c11PodNames(accepted), q.Name, nCalls[q.Name], lo(tk, q, r), r, describe())
+						return
+					}
+				}
+				uncovered := false
+				for r := range tk.target {
+					if shortFor(tk, r) {
+						uncovered = true
+					}
+				}
+				if uncovered {
+					sawUncoveredAtEnd = true
+					for _, q := range s.pods {
+						if nCalls[q.Name] > 1 && askedBy[tk.feature][q.Idx] && !evictedEarlier[q.Idx] {
+							sawRetriedWhileUncovered = true
+						}
+					}
 				}
 			}
 			if round > 1 && len(pending) > 0 {
@@ -600,6 +712,9 @@ func c11RunRounds(t *testing.T, unit string, withGrace bool) {
 		c.ClassIf(sawRetry, "pod-retried-after-failed-eviction")
 		c.ClassIf(len(deferred) > 0, "evicted-although-pending-victims-later-in-order-cover-target")
 		c.Class(fmt.Sprintf("rounds:%d", nRounds))
+		c.ClassIf(sawUncoveredAtEnd, "round-ends-with-target-not-covered-by-accepted-victims")
+		c.ClassIf(sawRetriedWhileUncovered, "round-ends-uncovered:pod-with-earlier-failed-eviction-asked-again")
+		_ = sawFailedPodNotAccepted
 		c.ClassIf(sawZeroGracePending, "later-round-with-target:earlier-victim-with-grace-period-0-still-present")
 		c.ClassIf(sawGracePending, "later-round-with-target:earlier-victim-with-grace-period>0-still-present")
 		if (!withGrace && sawShape && sawTerminating) || (withGrace && sawZeroGracePending) {
@@ -614,4 +729,12 @@ func c11RunRounds(t *testing.T, unit string, withGrace bool) {
 			}
 		}
 	})
+}
+
+func c11PodNames(l []*c11Pod) []string {
+	out := make([]string, len(l))
+	for i, x := range l {
+		out[i] = x.Name
+	}
+	return out
 }
